@@ -348,7 +348,9 @@ static void run_history(char **lines, int n)
             int32 ref = VSfind(fid, nm);
             r = VSattach(fid, ref > 0 ? ref : 9999, d);
             slot[s] = r;
-            printf("I 4 %lld 0 %d %s", S(b), 40 + idx, e); ans(r, r != FAIL);
+            printf("I 4 %lld 0 %d %s", S(b), 40 + idx, e);
+            if (r != FAIL) printf(" %d", (int)r); else printf(" F");
+            printf("%s\n", d[0] == 'w' ? " W" : "");       /* W: attachment for writing (exclusive) */
         }
         else if (!strcmp(op, "vsdetach")) { int r = VSdetach((int32)id); printf("L 4 %lld", id); ans(0, r != FAIL); }
         else if (!strcmp(op, "vsname")) {
@@ -369,7 +371,16 @@ static void run_history(char **lines, int n)
             printf("U 5 %lld", id); ans(100LL * (nd - 2 + 1) + 90, r != FAIL);
         }
         else if (!strcmp(op, "grselect")) {
-            int32 r = GRselect((int32)S(b), atoi(c));
+            int32 gidx = atoi(c);
+            if (e[0] == 'n') {                 /* the index is looked up by name first */
+                char *fn = NULL; int acc, att, p = -1; char nm[64];
+                int32 nd = 0, na = 0;
+                if (GRfileinfo((int32)S(b), &nd, &na) != FAIL) p = nd - 2;
+                (void)fn; (void)acc; (void)att;
+                snprintf(nm, sizeof nm, "f%di%d", p, atoi(c));
+                gidx = GRnametoindex((int32)S(b), nm);
+            }
+            int32 r = GRselect((int32)S(b), gidx);
             slot[s] = r;
             printf("I 6 %lld 5 %d %s", S(b), atoi(c), d); ans(r, r != FAIL);
         }
@@ -411,6 +422,17 @@ static void run_history(char **lines, int n)
             slot[s] = r;
             printf("I 8 %lld 7 %d %s", S(b) + AN_OFF, t * 10 + atoi(c), d); ans(r, r != FAIL);
         }
+        else if (!strcmp(op, "antagref")) {    /* antagref s an idx ok type: the id is obtained from the tag/ref */
+            static const uint16 tags[4] = {DFTAG_DIL, DFTAG_DIA, DFTAG_FID, DFTAG_FD};
+            int   t = atoi(e) & 3, idx = atoi(c);
+            char *fn = NULL; int acc, att, p = -1;
+            if (Hfidinquire((int32)S(b), &fn, &acc, &att) == SUCCEED) p = path_index(fn);
+            /* refs are allocated per tag in creation order; ANselect enumerates newest first */
+            int   ref = (p >= 0 ? ann_count(p, t) : 2) - idx;
+            int32 r = ANtagref2id((int32)S(b), tags[t], (uint16)(ref > 0 ? ref : 999));
+            slot[s] = r;
+            printf("I 8 %lld 7 %d %s", S(b) + AN_OFF, t * 10 + idx, d); ans(r, r != FAIL);
+        }
         else if (!strcmp(op, "ancreate")) {    /* ancreate s an type ok: a new annotation (index 4) */
             int   t = atoi(c);
             char *fn = NULL; int acc, att, p = -1;
@@ -431,6 +453,14 @@ static void run_history(char **lines, int n)
                 /* the text read through the id must be the annotation's own text */
                 memset(txt, 0, sizeof txt);
                 if (ANreadann((int32)id, txt, len + 1) == FAIL || strncmp(txt, ANTEXT, (size_t)len) != 0) p = -1;
+                /* ... and the tag/ref reported for the id must be the annotation's own */
+                {
+                    static const uint16 tags[4] = {DFTAG_DIL, DFTAG_DIA, DFTAG_FID, DFTAG_FD};
+                    uint16 tg = 0, rf = 0;
+                    if (ANid2tagref((int32)id, &tg, &rf) == FAIL || tg != tags[t] ||
+                        (i < 4 && p >= 0 && p <= 2 && rf != ann_count(p, t) - i))
+                        p = -1;
+                }
             }
             else if (op[2] == 'n') r = FAIL;
             printf("U 8 %lld", id); ans((100LL * (p + 1) + 91) * 100 + t * 10 + i, r != FAIL);
@@ -449,7 +479,15 @@ static void run_history(char **lines, int n)
             printf("U 9 %lld", id); ans(nd - 2 + 1, r != FAIL);
         }
         else if (!strcmp(op, "sdselect")) {
-            int32 r = SDselect((int32)S(b), atoi(c));
+            int32 sidx = atoi(c);
+            if (e[0] == 'n') {                 /* the index is looked up by name first */
+                char  nm[64];
+                int32 nd = 0, na = 0, p = -1;
+                if (SDfileinfo((int32)S(b), &nd, &na) != FAIL) p = nd - 2;
+                snprintf(nm, sizeof nm, "f%dd%d", (int)p, atoi(c));
+                sidx = SDnametoindex((int32)S(b), nm);
+            }
+            int32 r = SDselect((int32)S(b), sidx);
             slot[s] = r;
             printf("I 10 %lld 9 %d %s", S(b), atoi(c), d); ans(r, r != FAIL);
         }
